@@ -562,6 +562,15 @@ def local_diff_idiom(body):
     list is empty)."""
     dl = {i for i, t in enumerate(body.locals) if t.startswith("std::vec::Vec<" + DIFF)}
     lpush, empty_true = set(), set()
+    F = body.facts
+    for bi, t in body.calls():
+        # `self.helper(.., &mut diff_list)?` where the helper pushes a Diff onto that list on every normal return
+        c = body.callee(t)
+        if F is not None and c in F.heads and F.has(c) and c != body.path:
+            for i, a in enumerate(t["args"], 1):
+                rt = body.ref_target(a)
+                if rt is not None and not place_proj(rt) and rt["l"] in dl and _always_pushes(F, c, i):
+                    lpush.add(bi)
     for bi, t in body.calls():
         q = body.callee_q(t) or ""
         if not t["args"]:
@@ -592,6 +601,60 @@ def local_diff_idiom(body):
                     if true_t is not None:
                         empty_true.add((sb, true_t))
     return lpush, empty_true
+
+
+_AP = {}
+
+
+def _always_pushes(F, c, param):
+    """Every normal return of function c is preceded by a Vec::push (extend / append) onto its `&mut Vec<Diff>` parameter
+    number `param`."""
+    key = (c, param)
+    if key in _AP:
+        return _AP[key]
+    _AP[key] = False
+    hb = F.body(c)
+    if param > hb.nargs or not hb.locals[param].replace(" ", "").startswith("&mutstd::vec::Vec<" + DIFF):
+        return False
+    pushes = set()
+    for bi, t in hb.calls():
+        q = hb.callee_q(t) or ""
+        if not t["args"]:
+            continue
+        if q in ("std::vec::Vec::push", "std::vec::Vec::append", "std::vec::Vec::insert") or q.endswith("::extend"):
+            a0 = op_place(t["args"][0])
+            l = a0["l"] if a0 is not None and not place_proj(a0) else None
+            for _ in range(4):
+                if l is None or l == param:
+                    break
+                rv = hb.def_rvalue(l)
+                if rv is None:
+                    l = None
+                elif rv["k"] in ("use", "cast") and op_place(rv["o"]) is not None and not place_proj(op_place(rv["o"])):
+                    l = op_place(rv["o"])["l"]
+                elif rv["k"] == "ref" and all(e[0] == "*" for e in place_proj(rv["p"])):
+                    l = rv["p"]["l"]
+                else:
+                    l = None
+            if l == param:
+                pushes.add(bi)
+    if not pushes:
+        return False
+    errs = err_blocks(hb)
+    rets = set(hb.return_blocks())
+    seen, st = set(), [0]
+    ok = True
+    while st:
+        x = st.pop()
+        if x in seen or x in pushes or x in errs:
+            continue
+        seen.add(x)
+        if x in rets:
+            ok = False
+            break
+        st.extend(hb.succs(x))
+    _AP[key] = ok
+    return ok
 
 
 def unrecorded_return(body, w, avoid, rets, lpush, empty_true):
